@@ -79,6 +79,8 @@ def build(tier, seed):
             # a file prefix that itself contains the letter that introduces the replica part
             cases.append({'kind': 'rwms', 'version': version, 'reps': reps, 'first': 3, 'spacing': 2, 'prefix': 'runAr'})
             cases.append({'kind': 'rwms', 'version': version, 'reps': reps, 'first': 1, 'spacing': 1, 'prefix': 'corr'})
+            # ... and one in which that letter is followed by a digit
+            cases.append({'kind': 'rwms', 'version': version, 'reps': reps, 'first': 2, 'spacing': 1, 'prefix': 'master3'})
             if tier == 'thorough':
                 for shape in (0, 2):
                     for first, spacing in ((1, 1), (7, 1), (6, 3), (5, 5), (20, 4)):
@@ -88,12 +90,15 @@ def build(tier, seed):
             cases.append({'kind': 'msdat', 'reps': reps, 'first': first, 'spacing': spacing})
             cases.append({'kind': 'gfms', 'reps': reps, 'first': first, 'spacing': spacing})
         cases.append({'kind': 'msdat', 'reps': reps, 'first': 1, 'spacing': 1, 'prefix': 'run7'})
+        cases.append({'kind': 'msdat', 'reps': reps, 'first': 1, 'spacing': 1, 'prefix': 'corr5'})
         # flow measured every dn-th integration step (header field dn > 1), larger lattice so that the flow-time index is > 1
         cases.append({'kind': 'msdat', 'reps': reps, 'first': 2, 'spacing': 2, 'dn': 2, 'L': 4})
         cases.append({'kind': 'msdat', 'reps': reps, 'first': 1, 'spacing': 1, 'dn': 3, 'L': 6})
         cases.append({'kind': 'gfms', 'reps': reps, 'first': 1, 'spacing': 1, 'prefix': 'rr'})
+        cases.append({'kind': 'gfms', 'reps': reps, 'first': 1, 'spacing': 1, 'prefix': 'r2'})
         cases.append({'kind': 'ms5', 'reps': reps})
         cases.append({'kind': 'ms5', 'reps': reps, 'prefix': 'corrD'})
+        cases.append({'kind': 'ms5', 'reps': reps, 'prefix': 'xr4'})
     cases.append({'kind': 'sort-names'})
     from checks import c17_sfcf
     cases += c17_sfcf.build(tier)
@@ -188,6 +193,23 @@ def run_rwms(pe, acc, case, d):
                          'read_rwms(version %s, replicas %s, first trajectory %d, spacing %d, %s, listing order %s): %s' % (version, reps, first, spacing, sel, order, bad))
             else:
                 acc.ok(('rwms', version, tuple(reps), first, spacing, si, tuple(order)), True, 'rwms')
+    # selections that name a configuration the file does not store, on each replica in turn: refused
+    for which in range(len(reps)):
+        r = reps[which]
+        step = c0[r][1] - c0[r][0]
+        probes = [('r_stop-beyond-last', 'r_stop', c0[r][-1] + step), ('r_stop-far-beyond-last', 'r_stop', c0[r][-1] + 1000), ('r_start-beyond-last', 'r_start', c0[r][-1] + step)]
+        if c0[r][0] - step >= 1:
+            probes.append(('r_start-before-first', 'r_start', c0[r][0] - step))
+        if step > 1:
+            probes += [('r_start-in-gap', 'r_start', c0[r][2] + 1), ('r_stop-in-gap', 'r_stop', c0[r][-2] - 1)]
+        for pn, arg, val in probes:
+            sel = {arg: [val if i == which else None for i in range(len(reps))]}
+            sub = dict(case, sel=sel, probe=pn)
+            try:
+                res = pe.input.openQCD.read_rwms(d, prefix, version=version, postfix='ms1', **sel)
+                acc.fail('rwms:unstored-configuration-accepted', sub, 'read_rwms(%s) although replica %d stores %s: returned configurations %s' % (sel, r, c0[r], {n: list(res[0].idl[n]) for n in res[0].idl}))
+            except Exception:
+                acc.ok(('rwms-unstored', version, tuple(reps), first, spacing, which, pn), True, 'unstored-configuration-refused')
     # explicit files (with and without names) in EVERY order of the list: data, configuration numbers and names stay together,
     # and per-replica selections follow the order of the list that was passed
     if len(reps) > 1:
@@ -231,6 +253,9 @@ def run_sort_names(pe, acc, case):
         'r<d>': lambda n: 'ensAr%d.ms1.dat' % n, 'r<d> bare': lambda n: 'r%d' % n, 'id<d>': lambda n: 'data_id%d' % n,
         'r<d>_id<d>': lambda n: 'Xr%d_id7' % n, 'no marker (rep<d>)': lambda n: 'rep%d' % n, 'no marker (prefix_<d>.ext)': lambda n: 'run_%d.dat' % n,
         'no marker, common leading digit': lambda n: 'b%d' % (100 + n), 'no marker, zero padded': lambda n: 'cfg%03d' % n,
+        # the common prefix itself contains the marker letter followed by a digit
+        'r<d> after a prefix containing r<d>': lambda n: 'master3r%d.ms1.dat' % n, 'r<d> after r<d>': lambda n: 'xr2r%d.dat' % n,
+        'id<d> after a prefix containing id<d>': lambda n: 'grid4id%d' % n, 'r<d>id<d> after a prefix containing r<d>': lambda n: 'corr5r%did%d' % (n // 3, n % 3),
     }
     for fam, mk in families.items():
         for nums in ([1, 2], [1, 2, 10], [2, 10, 11], [0, 5, 30, 100], [9, 10], [1, 10, 100]):
@@ -288,6 +313,24 @@ def run_msdat(pe, acc, case, d):
                     acc.fail('msdat:qtop', sub, 'read_qtop(c=%g, replicas %s, first %d, spacing %d, %s, listing %s): %s' % (c, reps, first, spacing, sel, order, bad))
                 else:
                     acc.ok(('qtop', tuple(reps), first, spacing, c, bool(sel), tuple(order)), True, 'qtop')
+    # selections that name a configuration which is not stored (beyond the last, before the first, inside a gap of the measurement
+    # spacing), on each replica in turn: "precisely the requested configurations" cannot be served - refused
+    for which in range(len(reps)):
+        r = reps[which]
+        step = cfgs[r][1] - cfgs[r][0]
+        probes = [('r_stop-beyond-last', 'r_stop', cfgs[r][-1] + step), ('r_stop-far-beyond-last', 'r_stop', cfgs[r][-1] + 1000), ('r_start-beyond-last', 'r_start', cfgs[r][-1] + step)]
+        if cfgs[r][0] - step >= 1:
+            probes.append(('r_start-before-first', 'r_start', cfgs[r][0] - step))
+        if step > 1:
+            probes += [('r_start-in-gap', 'r_start', cfgs[r][2] + 1), ('r_stop-in-gap', 'r_stop', cfgs[r][-2] - 1)]
+        for pn, arg, val in probes:
+            sel = {arg: [val if i == which else None for i in range(len(reps))]}
+            sub = dict(case, sel=sel, probe=pn)
+            try:
+                q = pe.input.openQCD.read_qtop(d, prefix, 0.3, L=L, **sel)
+                acc.fail('msdat:qtop:unstored-configuration-accepted', sub, 'read_qtop(%s) although replica %d stores %s: returned configurations %s' % (sel, r, cfgs[r], {n: list(q.idl[n]) for n in q.idl}))
+            except Exception:
+                acc.ok(('qtop-unstored', tuple(reps), first, spacing, which, pn), True, 'unstored-configuration-refused')
     # explicit files (automatic names / given names) in every order of the list
     if len(reps) > 1:
         c = 0.3
